@@ -514,9 +514,13 @@ class Key(CryptographicObject):
                     self._kdw_eki_cp_initial_counter_value
             }
         }
-        if not any(encryption_key_info['cryptographic_parameters'].values()):
+        if all(
+            v is None for v in
+            encryption_key_info['cryptographic_parameters'].values()
+        ):
             encryption_key_info['cryptographic_parameters'] = {}
-        if not any(encryption_key_info.values()):
+        if encryption_key_info['unique_identifier'] is None and \
+                encryption_key_info['cryptographic_parameters'] == {}:
             encryption_key_info = {}
 
         mac_sign_key_info = {
@@ -541,9 +545,13 @@ class Key(CryptographicObject):
                     self._kdw_mski_cp_initial_counter_value
             }
         }
-        if not any(mac_sign_key_info['cryptographic_parameters'].values()):
+        if all(
+            v is None for v in
+            mac_sign_key_info['cryptographic_parameters'].values()
+        ):
             mac_sign_key_info['cryptographic_parameters'] = {}
-        if not any(mac_sign_key_info.values()):
+        if mac_sign_key_info['unique_identifier'] is None and \
+                mac_sign_key_info['cryptographic_parameters'] == {}:
             mac_sign_key_info = {}
 
         key_wrapping_data['wrapping_method'] = self._kdw_wrapping_method
